@@ -1272,6 +1272,42 @@ class BuiltinMixin:
                 out.append((s, VTuple((VStr(before), VStr(mid), VStr(after)))))
         return out
 
+    # ------------------------------------------------------------ re.Match model (DESIGN 3)
+    # a match object m of a compiled pattern on a subject string: group texts and offsets are
+    # uninterpreted functions of (m, group name); which text a pattern matches is NOT modelled.
+
+    def m_Match_group(self, st, m, args, kwargs):
+        h = st.deref(m)
+        g = "0"
+        if args:
+            ok, gv = concrete(args[0])
+            if not ok:
+                raise Unsupported("match.group with symbolic name")
+            g = str(gv)
+        if g in h.fields.get("__groups__", VConst({})).py:
+            return [(st, h.fields["__groups__"].py[g])]
+        return [(st, VStr(z3.Function("match_group", I, S, S)(z3.IntVal(m.addr), z3.StringVal(g))))]
+
+    def m_Match_start(self, st, m, args, kwargs):
+        g = "0"
+        if args:
+            ok, gv = concrete(args[0])
+            g = str(gv)
+        h = st.deref(m)
+        if g in h.fields.get("__starts__", VConst({})).py:
+            return [(st, h.fields["__starts__"].py[g])]
+        return [(st, VInt(z3.Function("match_start", I, S, I)(z3.IntVal(m.addr), z3.StringVal(g))))]
+
+    def m_Match_end(self, st, m, args, kwargs):
+        g = "0"
+        if args:
+            ok, gv = concrete(args[0])
+            g = str(gv)
+        h = st.deref(m)
+        if g in h.fields.get("__ends__", VConst({})).py:
+            return [(st, h.fields["__ends__"].py[g])]
+        return [(st, VInt(z3.Function("match_end", I, S, I)(z3.IntVal(m.addr), z3.StringVal(g))))]
+
     # ------------------------------------------------------------ pathlib model (DESIGN 3)
     # a path is an opaque value with: name, suffix, is_absolute, "has a '..' part";
     # joinpath(base, q) stays inside base iff q is relative and has no '..' part.
